@@ -6,736 +6,14 @@
 #![allow(unused_macros, unused_imports, unused_variables, unused_mut)]
 #![allow(unstable_name_collisions)]
 
-use bnum_verif_harness::gen::{self, Rng, B};
-use bnum_verif_harness::*;
-use core::ops::*;
-use num_integer::{Integer, Roots};
-use num_traits::{
-    Bounded, CheckedAdd, CheckedDiv, CheckedEuclid, CheckedMul, CheckedNeg, CheckedRem, CheckedShl, CheckedShr, CheckedSub, Euclid, MulAdd, MulAddAssign, Num, One, Pow, PrimInt,
-    Saturating, SaturatingAdd, SaturatingMul, SaturatingSub, Signed, WrappingAdd, WrappingMul, WrappingNeg, WrappingShl, WrappingShr, WrappingSub, Zero,
-};
-use num_traits::ops::overflowing::{OverflowingAdd, OverflowingSub};
-
-// ----------------------------------------------------------------------------------------------
-// C17: generic over the std operator traits
-
-trait OpsAll:
-    Bn
-    + Add<Output = Self> + Sub<Output = Self> + Mul<Output = Self> + Div<Output = Self> + Rem<Output = Self>
-    + for<'a> Add<&'a Self, Output = Self> + for<'a> Sub<&'a Self, Output = Self> + for<'a> Mul<&'a Self, Output = Self>
-    + for<'a> Div<&'a Self, Output = Self> + for<'a> Rem<&'a Self, Output = Self>
-    + AddAssign + SubAssign + MulAssign + DivAssign + RemAssign
-    + for<'a> AddAssign<&'a Self> + for<'a> SubAssign<&'a Self> + for<'a> MulAssign<&'a Self> + for<'a> DivAssign<&'a Self> + for<'a> RemAssign<&'a Self>
-    + BitAnd<Output = Self> + BitOr<Output = Self> + BitXor<Output = Self> + Not<Output = Self>
-    + for<'a> BitAnd<&'a Self, Output = Self> + for<'a> BitOr<&'a Self, Output = Self> + for<'a> BitXor<&'a Self, Output = Self>
-    + BitAndAssign + BitOrAssign + BitXorAssign
-    + for<'a> BitAndAssign<&'a Self> + for<'a> BitOrAssign<&'a Self> + for<'a> BitXorAssign<&'a Self>
-    + core::iter::Sum<Self> + core::iter::Product<Self>
-    + for<'a> core::iter::Sum<&'a Self> + for<'a> core::iter::Product<&'a Self>
-{
-}
-
-macro_rules! binop_forms {
-    ($rec:expr, $sem:literal, $name:literal, $a:expr, $b:expr, $op:tt, $asg:tt) => {{
-        let (a, b) = ($a, $b);
-        $rec.sem = $sem;
-        $rec.fam($name, vec![int(&a), int(&b)]);
-        $rec.form("op", || val(a $op b));
-        $rec.form("op_vr", || val(a $op &b));
-        $rec.form("op_assign", || {
-            let mut x = a;
-            x $asg b;
-            val(x)
-        });
-        $rec.form("op_assign_ref", || {
-            let mut x = a;
-            x $asg &b;
-            val(x)
-        });
-        if Bn::enc(&a) == Bn::enc(&b) {
-            // both operands are the same object (aliased references), not merely equal values
-            $rec.form("op_rr_same", || val(&a $op &a));
-            $rec.form("op_vr_same", || val(a $op &a));
-            $rec.form("op_assign_same", || {
-                let mut x = a;
-                let y = x;
-                x $asg &y;
-                val(x)
-            });
-        }
-    }};
-}
-
-fn c17_generic<T: OpsAll>(rec: &mut Rec, ab: &B, bb: &B)
-where
-    for<'a> &'a T: Add<T, Output = T> + Add<&'a T, Output = T> + Sub<T, Output = T> + Sub<&'a T, Output = T> + Mul<T, Output = T> + Mul<&'a T, Output = T>
-        + Div<T, Output = T> + Div<&'a T, Output = T> + Rem<T, Output = T> + Rem<&'a T, Output = T>
-        + BitAnd<T, Output = T> + BitAnd<&'a T, Output = T> + BitOr<T, Output = T> + BitOr<&'a T, Output = T> + BitXor<T, Output = T> + BitXor<&'a T, Output = T>
-        + Not<Output = T>,
-{
-    let a = <T as Bn>::dec(ab);
-    let b = <T as Bn>::dec(bb);
-    binop_forms!(rec, "C01", "add", a, b, +, +=);
-    rec.form("op_rv", || val(&a + b));
-    rec.form("op_rr", || val(&a + &b));
-    binop_forms!(rec, "C01", "sub", a, b, -, -=);
-    rec.form("op_rv", || val(&a - b));
-    rec.form("op_rr", || val(&a - &b));
-    binop_forms!(rec, "C02", "mul", a, b, *, *=);
-    rec.form("op_rv", || val(&a * b));
-    rec.form("op_rr", || val(&a * &b));
-    binop_forms!(rec, "C03", "div", a, b, /, /=);
-    rec.form("op_rv", || val(&a / b));
-    rec.form("op_rr", || val(&a / &b));
-    binop_forms!(rec, "C03", "rem", a, b, %, %=);
-    rec.form("op_rv", || val(&a % b));
-    rec.form("op_rr", || val(&a % &b));
-    binop_forms!(rec, "C06", "bitand", a, b, &, &=);
-    rec.form("op_rv", || val(&a & b));
-    rec.form("op_rr", || val(&a & &b));
-    binop_forms!(rec, "C06", "bitor", a, b, |, |=);
-    rec.form("op_rv", || val(&a | b));
-    rec.form("op_rr", || val(&a | &b));
-    binop_forms!(rec, "C06", "bitxor", a, b, ^, ^=);
-    rec.form("op_rv", || val(&a ^ b));
-    rec.form("op_rr", || val(&a ^ &b));
-    rec.sem = "C06";
-    rec.fam("not", vec![int(&a)]);
-    rec.form("op", || val(!a));
-    rec.form("ref", || val(!&a));
-}
-
-fn c17_fold<T: OpsAll>(rec: &mut Rec, items: &[B]) {
-    let xs: Vec<T> = items.iter().map(|b| <T as Bn>::dec(b)).collect();
-    rec.sem = "C17";
-    rec.fam("fold", xs.iter().map(|x| int(x)).collect());
-    rec.form("sum_val", || val(xs.iter().copied().sum::<T>()));
-    rec.form("sum_ref", || val(xs.iter().sum::<T>()));
-    rec.form("product_val", || val(xs.iter().copied().product::<T>()));
-    rec.form("product_ref", || val(xs.iter().product::<T>()));
-}
-
-// the parts that need inherent methods or type-specific impls: one trait, implemented per family
-trait Fam: OpsAll {
-    fn c17_inherent(rec: &mut Rec, ab: &B, bb: &B);
-    fn c17_shifts(rec: &mut Rec, xb: &B, amt: i128);
-    fn c17_digit(rec: &mut Rec, xb: &B, d: u64);
-    fn c18_pair(rec: &mut Rec, ab: &B, bb: &B, cb: &B);
-    fn c18_unary(rec: &mut Rec, ab: &B);
-    fn c18_root(rec: &mut Rec, xb: &B, n: u32);
-    fn c18_shift(rec: &mut Rec, xb: &B, s: u32);
-    fn c18_consts(rec: &mut Rec);
-}
-
-macro_rules! shift_all_forms {
-    ($rec:expr, $x:expr, $amt:expr, $op:tt, $asg:tt; $($t:ident),*) => {{
-        let x = $x;
-        let amt: i128 = $amt;
-        $(
-            if let Ok(v) = <$t>::try_from(amt) {
-                $rec.form(stringify!($t), || val(x $op v));
-                $rec.form(concat!(stringify!($t), "_vr"), || val(x $op &v));
-                $rec.form(concat!(stringify!($t), "_rv"), || val(&x $op v));
-                $rec.form(concat!(stringify!($t), "_rr"), || val(&x $op &v));
-                $rec.form(concat!(stringify!($t), "_assign"), || {
-                    let mut y = x;
-                    y $asg v;
-                    val(y)
-                });
-                $rec.form(concat!(stringify!($t), "_assign_ref"), || {
-                    let mut y = x;
-                    y $asg &v;
-                    val(y)
-                });
-            }
-        )*
-    }};
-}
-macro_rules! shift_bnum_forms {
-    ($rec:expr, $x:expr, $amt:expr, $op:tt, $asg:tt; $($name:literal: $t:ty),*) => {{
-        let x = $x;
-        let amt: i128 = $amt;
-        $(
-            if amt >= 0 && amt < wof(&x) as i128 && (amt as u128) < (1u128 << (<$t as Bn>::W - 1).min(100)) {
-                // the amount as a bnum integer, built from bytes by the harness
-                let mut ab = vec![0u8; (<$t as Bn>::W / 8) as usize];
-                let le = (amt as u128).to_le_bytes();
-                for k in 0..ab.len().min(16) {
-                    ab[k] = le[k];
-                }
-                let v = <$t as Bn>::dec(&ab);
-                $rec.form($name, || val(x $op v));
-                $rec.form(concat!($name, "_rr"), || val(&x $op &v));
-                $rec.form(concat!($name, "_vr"), || val(x $op &v));
-                $rec.form(concat!($name, "_rv"), || val(&x $op v));
-                $rec.form(concat!($name, "_assign"), || {
-                    let mut y = x;
-                    y $asg v;
-                    val(y)
-                });
-                $rec.form(concat!($name, "_assign_ref"), || {
-                    let mut y = x;
-                    y $asg &v;
-                    val(y)
-                });
-            }
-        )*
-    }};
-}
-
-macro_rules! nt_arith {
-    ($rec:expr, $a:expr, $b:expr, $c:expr) => {{
-        let (a, b, c) = ($a, $b, $c);
-        $rec.sem = "C01";
-        $rec.fam("add", vec![int(&a), int(&b)]);
-        $rec.form("checked", || opt(a.checked_add(b)));
-        $rec.form("nt_checked", || opt(CheckedAdd::checked_add(&a, &b)));
-        $rec.form("nt_wrapping", || val(WrappingAdd::wrapping_add(&a, &b)));
-        $rec.form("nt_saturating", || val(SaturatingAdd::saturating_add(&a, &b)));
-        $rec.form("nt_saturating2", || val(Saturating::saturating_add(a, b)));
-        $rec.form("nt_overflowing", || pairf(OverflowingAdd::overflowing_add(&a, &b)));
-        $rec.fam("sub", vec![int(&a), int(&b)]);
-        $rec.form("checked", || opt(a.checked_sub(b)));
-        $rec.form("nt_checked", || opt(CheckedSub::checked_sub(&a, &b)));
-        $rec.form("nt_wrapping", || val(WrappingSub::wrapping_sub(&a, &b)));
-        $rec.form("nt_saturating", || val(SaturatingSub::saturating_sub(&a, &b)));
-        $rec.form("nt_saturating2", || val(Saturating::saturating_sub(a, b)));
-        $rec.form("nt_overflowing", || pairf(OverflowingSub::overflowing_sub(&a, &b)));
-        $rec.fam("neg", vec![int(&a)]);
-        $rec.form("nt_checked", || opt(CheckedNeg::checked_neg(&a)));
-        $rec.form("nt_wrapping", || val(WrappingNeg::wrapping_neg(&a)));
-        $rec.sem = "C02";
-        $rec.fam("mul", vec![int(&a), int(&b)]);
-        $rec.form("checked", || opt(a.checked_mul(b)));
-        $rec.form("nt_checked", || opt(CheckedMul::checked_mul(&a, &b)));
-        $rec.form("nt_wrapping", || val(WrappingMul::wrapping_mul(&a, &b)));
-        $rec.form("nt_saturating", || val(SaturatingMul::saturating_mul(&a, &b)));
-        $rec.sem = "C03";
-        $rec.fam("div", vec![int(&a), int(&b)]);
-        $rec.form("nt_checked", || opt(CheckedDiv::checked_div(&a, &b)));
-        $rec.fam("rem", vec![int(&a), int(&b)]);
-        $rec.form("nt_checked", || opt(CheckedRem::checked_rem(&a, &b)));
-        $rec.fam("div_euclid", vec![int(&a), int(&b)]);
-        $rec.form("nt_checked", || opt(CheckedEuclid::checked_div_euclid(&a, &b)));
-        $rec.form("plain", || val(Euclid::div_euclid(&a, &b)));
-        $rec.fam("rem_euclid", vec![int(&a), int(&b)]);
-        $rec.form("nt_checked", || opt(CheckedEuclid::checked_rem_euclid(&a, &b)));
-        $rec.form("plain", || val(Euclid::rem_euclid(&a, &b)));
-        $rec.sem = "C18";
-        $rec.fam("integer", vec![int(&a), int(&b)]);
-        $rec.form("div_floor", || val(Integer::div_floor(&a, &b)));
-        $rec.form("mod_floor", || val(Integer::mod_floor(&a, &b)));
-        $rec.form("div_rem", || wide(Integer::div_rem(&a, &b)));
-        $rec.form("div_mod_floor", || wide(Integer::div_mod_floor(&a, &b)));
-        $rec.form("gcd", || val(Integer::gcd(&a, &b)));
-        $rec.form("lcm", || val(Integer::lcm(&a, &b)));
-        $rec.form("gcd_lcm", || wide(Integer::gcd_lcm(&a, &b)));
-        $rec.form("nt_div_ceil", || val(Integer::div_ceil(&a, &b)));
-        $rec.form("nt_next_multiple_of", || val(Integer::next_multiple_of(&a, &b)));
-        $rec.form("nt_prev_multiple_of", || val(Integer::prev_multiple_of(&a, &b)));
-        $rec.form("is_multiple_of", || boolv(Integer::is_multiple_of(&a, &b)));
-        $rec.form("divides", || boolv(Integer::divides(&a, &b)));
-        $rec.fam("mul_add", vec![int(&a), int(&b), int(&c)]);
-        $rec.form("mul_add", || val(MulAdd::mul_add(a, b, c)));
-        $rec.form("mul_add_assign", || {
-            let mut x = a;
-            MulAddAssign::mul_add_assign(&mut x, b, c);
-            val(x)
-        });
-    }};
-}
-macro_rules! nt_unary {
-    ($rec:expr, $T:ty, $a:expr) => {{
-        let a = $a;
-        $rec.sem = "C18";
-        $rec.fam("parity", vec![int(&a)]);
-        $rec.form("is_even", || boolv(Integer::is_even(&a)));
-        $rec.form("is_odd", || boolv(Integer::is_odd(&a)));
-        $rec.form("is_zero", || boolv(Zero::is_zero(&a)));
-        $rec.form("is_one", || boolv(One::is_one(&a)));
-        $rec.sem = "C06";
-        $rec.fam("counts", vec![int(&a)]);
-        $rec.form("count_ones", || natv(PrimInt::count_ones(a) as u128));
-        $rec.form("count_zeros", || natv(PrimInt::count_zeros(a) as u128));
-        $rec.form("leading_zeros", || natv(PrimInt::leading_zeros(a) as u128));
-        $rec.form("trailing_zeros", || natv(PrimInt::trailing_zeros(a) as u128));
-        $rec.form("leading_ones", || natv(PrimInt::leading_ones(a) as u128));
-        $rec.form("trailing_ones", || natv(PrimInt::trailing_ones(a) as u128));
-        $rec.ev("swap_bytes", vec![int(&a)], || val(PrimInt::swap_bytes(a)));
-        $rec.ev("reverse_bits", vec![int(&a)], || val(PrimInt::reverse_bits(a)));
-        $rec.sem = "C15";
-        $rec.fam("endian", vec![int(&a), tag(if cfg!(target_endian = "little") { "little" } else { "big" })]);
-        $rec.form("to_be", || val(PrimInt::to_be(a)));
-        $rec.form("to_le", || val(PrimInt::to_le(a)));
-        $rec.form("from_be", || val(<$T as PrimInt>::from_be(a)));
-        $rec.form("from_le", || val(<$T as PrimInt>::from_le(a)));
-    }};
-}
-macro_rules! nt_shift {
-    ($rec:expr, $x:expr, $s:expr) => {{
-        let x = $x;
-        let s: u32 = $s;
-        $rec.sem = "C05";
-        $rec.fam("shl", vec![int(&x), nat(s as u128)]);
-        $rec.form("checked", || opt(CheckedShl::checked_shl(&x, s)));
-        $rec.form("wrapping", || val(WrappingShl::wrapping_shl(&x, s)));
-        $rec.form("op", || val(PrimInt::signed_shl(x, s)));
-        $rec.form("inherent", || val(PrimInt::unsigned_shl(x, s)));
-        $rec.fam("shr", vec![int(&x), nat(s as u128)]);
-        $rec.form("checked", || opt(CheckedShr::checked_shr(&x, s)));
-        $rec.form("wrapping", || val(WrappingShr::wrapping_shr(&x, s)));
-        $rec.ev("rotate_left", vec![int(&x), nat(s as u128)], || val(PrimInt::rotate_left(x, s)));
-        $rec.ev("rotate_right", vec![int(&x), nat(s as u128)], || val(PrimInt::rotate_right(x, s)));
-        $rec.sem = "C18";
-        // signed_shr / unsigned_shr: arithmetic / logical shift of the bit pattern, whatever the type
-        $rec.fam("prim_shr", vec![int(&x), nat(s as u128)]);
-        $rec.form("signed_shr", || val(PrimInt::signed_shr(x, s)));
-        $rec.form("unsigned_shr", || val(PrimInt::unsigned_shr(x, s)));
-    }};
-}
-macro_rules! nt_pow {
-    ($rec:expr, $x:expr, $e:expr) => {{
-        let x = $x;
-        let e: u32 = $e;
-        $rec.sem = "C08";
-        $rec.fam("pow", vec![int(&x), nat(e as u128)]);
-        $rec.form("op", || val(Pow::pow(x, e)));
-        $rec.form("op_rv", || val(PrimInt::pow(x, e)));
-        $rec.form("checked", || opt(x.checked_pow(e)));
-    }};
-}
-macro_rules! nt_root {
-    ($rec:expr, $x:expr, $n:expr) => {{
-        let x = $x;
-        let n: u32 = $n;
-        $rec.sem = "C18";
-        $rec.fam("root", vec![int(&x), nat(n as u128)]);
-        $rec.form("nth_root", || val(Roots::nth_root(&x, n)));
-        if n == 2 {
-            $rec.form("sqrt", || val(Roots::sqrt(&x)));
-        }
-        if n == 3 {
-            $rec.form("cbrt", || val(Roots::cbrt(&x)));
-        }
-    }};
-}
-macro_rules! nt_consts {
-    ($rec:expr, $T:ty) => {{
-        $rec.sem = "C16";
-        $rec.fam("consts", vec![]);
-        $rec.form("MIN", || val(<$T as Bounded>::min_value()));
-        $rec.form("MAX", || val(<$T as Bounded>::max_value()));
-        $rec.form("ZERO", || val(<$T as Zero>::zero()));
-        $rec.form("ONE", || val(<$T as One>::one()));
-        $rec.sem = "C10";
-        for (s, radix) in [("101", 2u32), ("-zz", 36), ("+077", 8), ("12a", 10), ("", 10), ("ff", 16), ("00000000000000000000000000000000000ff", 16)] {
-            $rec.fam("parse", vec![bytes(s.as_bytes()), nat(radix as u128)]);
-            $rec.form("from_str_radix", || match <$T as Num>::from_str_radix(s, radix) {
-                Ok(v) => Out::Ok_(v.enc()),
-                Err(e) => Out::Err_(format!("{:?}", e.kind())),
-            });
-        }
-    }};
-}
-
-macro_rules! fam_unsigned {
-    ($U:ident, $I:ident, $D:ty) => {
-        impl<const N: usize> OpsAll for $U<N> {}
-        impl<const N: usize> Fam for $U<N> {
-            fn c17_inherent(rec: &mut Rec, ab: &B, bb: &B) {
-                let a = <Self as Bn>::dec(ab);
-                let b = <Self as Bn>::dec(bb);
-                fam_inherent_common!(rec, a, b);
-            }
-            fn c17_shifts(rec: &mut Rec, xb: &B, amt: i128) {
-                fam_shifts_common!(rec, <Self as Bn>::dec(xb), amt, $U, $I);
-            }
-            fn c17_digit(rec: &mut Rec, xb: &B, d: u64) {
-                let x = <Self as Bn>::dec(xb);
-                // digit operands at the structural boundaries of the digit type: half-digit, half-digit +- 1,
-                // one bit above half, top bit, extremes, small, random of a random bit length
-                let bits = <$D>::BITS as u64;
-                let h = bits / 2;
-                let sel = d;
-                let d: $D = match sel % 16 {
-                    0 => 1,
-                    1 => <$D>::MAX,
-                    2 => <$D>::MAX - 1,
-                    3 => ((1u128 << h) - 1) as $D,
-                    4 => (1u128 << h) as $D,
-                    5 => ((1u128 << h) + 1) as $D,
-                    6 => ((1u128 << (h + 1)) - 1) as $D,
-                    7 => ((1u128 << (h + 1)) - 1 - ((sel >> 8) % 5) as u128) as $D,
-                    8 => (1u128 << (bits - 1)) as $D,
-                    9 => ((1u128 << (bits - 1)) + 1) as $D,
-                    10 => ((1u128 << (bits - 1)) - 1) as $D,
-                    11 => ((sel >> 8) % 300) as $D,
-                    12 | 13 => {
-                        let bl = 1 + (sel >> 8) % bits;
-                        (((sel >> 16) as u128 | (1u128 << 63)) >> (64 - bl) as u128) as $D
-                    }
-                    _ => (sel >> 7) as $D,
-                };
-                rec.sem = "C17";
-                // Add<digit> is exercised only when the exact result is representable (decided by the harness)
-                let mut db = vec![0u8; xb.len()];
-                let le = (d as u64).to_le_bytes();
-                for k in 0..db.len().min(8) {
-                    db[k] = le[k];
-                }
-                rec.fam("digit_ops", vec![int(&x), nat(d as u128)]);
-                if gen::add_fits(xb, &db, false) {
-                    rec.form("add", || val(x + d));
-                }
-                rec.form("div", || val(x / d));
-                rec.form("rem", || natv((x % d) as u128));
-            }
-            fn c18_pair(rec: &mut Rec, ab: &B, bb: &B, cb: &B) {
-                nt_arith!(rec, <Self as Bn>::dec(ab), <Self as Bn>::dec(bb), <Self as Bn>::dec(cb));
-            }
-            fn c18_unary(rec: &mut Rec, ab: &B) {
-                nt_unary!(rec, Self, <Self as Bn>::dec(ab));
-            }
-            fn c18_root(rec: &mut Rec, xb: &B, n: u32) {
-                nt_root!(rec, <Self as Bn>::dec(xb), n);
-                nt_pow!(rec, <Self as Bn>::dec(xb), n % 70);
-            }
-            fn c18_shift(rec: &mut Rec, xb: &B, s: u32) {
-                nt_shift!(rec, <Self as Bn>::dec(xb), s);
-            }
-            fn c18_consts(rec: &mut Rec) {
-                nt_consts!(rec, Self);
-            }
-        }
-        impl<const N: usize> OpsAll for $I<N> {}
-        impl<const N: usize> Fam for $I<N> {
-            fn c17_inherent(rec: &mut Rec, ab: &B, bb: &B) {
-                let a = <Self as Bn>::dec(ab);
-                let b = <Self as Bn>::dec(bb);
-                fam_inherent_common!(rec, a, b);
-                rec.sem = "C01";
-                rec.fam("neg", vec![int(&a)]);
-                rec.form("op", || val(-a));
-                rec.form("op_rv", || val(-&a));
-                rec.form("op_inherent", || val(a.neg()));
-            }
-            fn c17_shifts(rec: &mut Rec, xb: &B, amt: i128) {
-                fam_shifts_common!(rec, <Self as Bn>::dec(xb), amt, $U, $I);
-            }
-            fn c17_digit(_rec: &mut Rec, _xb: &B, _d: u64) {}
-            fn c18_pair(rec: &mut Rec, ab: &B, bb: &B, cb: &B) {
-                let (a, b) = (<Self as Bn>::dec(ab), <Self as Bn>::dec(bb));
-                nt_arith!(rec, a, b, <Self as Bn>::dec(cb));
-                rec.sem = "C18";
-                rec.fam("signed", vec![int(&a), int(&b)]);
-                rec.form("abs", || val(Signed::abs(&a)));
-                rec.form("abs_sub", || val(Signed::abs_sub(&a, &b)));
-                rec.form("signum", || val(Signed::signum(&a)));
-                rec.form("is_positive", || boolv(Signed::is_positive(&a)));
-                rec.form("is_negative", || boolv(Signed::is_negative(&a)));
-            }
-            fn c18_unary(rec: &mut Rec, ab: &B) {
-                nt_unary!(rec, Self, <Self as Bn>::dec(ab));
-            }
-            fn c18_root(rec: &mut Rec, xb: &B, n: u32) {
-                nt_root!(rec, <Self as Bn>::dec(xb), n);
-                nt_pow!(rec, <Self as Bn>::dec(xb), n % 70);
-            }
-            fn c18_shift(rec: &mut Rec, xb: &B, s: u32) {
-                nt_shift!(rec, <Self as Bn>::dec(xb), s);
-            }
-            fn c18_consts(rec: &mut Rec) {
-                nt_consts!(rec, Self);
-            }
-        }
+macro_rules! the_matrix {
+    ($m:ident) => {
+        bnum_verif_harness::for_matrix!($m);
     };
 }
-macro_rules! fam_inherent_common {
-    ($rec:expr, $a:expr, $b:expr) => {{
-        let (a, b) = ($a, $b);
-        $rec.sem = "C01";
-        $rec.fam("add", vec![int(&a), int(&b)]);
-        $rec.form("op_inherent", || val(a.add(b)));
-        $rec.fam("sub", vec![int(&a), int(&b)]);
-        $rec.form("op_inherent", || val(a.sub(b)));
-        $rec.sem = "C02";
-        $rec.fam("mul", vec![int(&a), int(&b)]);
-        $rec.form("op_inherent", || val(a.mul(b)));
-        $rec.sem = "C03";
-        $rec.fam("div", vec![int(&a), int(&b)]);
-        $rec.form("op_inherent", || val(a.div(b)));
-        $rec.fam("rem", vec![int(&a), int(&b)]);
-        $rec.form("op_inherent", || val(a.rem(b)));
-        $rec.sem = "C06";
-        $rec.fam("bitand", vec![int(&a), int(&b)]);
-        $rec.form("inherent", || val(a.bitand(b)));
-        $rec.fam("bitor", vec![int(&a), int(&b)]);
-        $rec.form("inherent", || val(a.bitor(b)));
-        $rec.fam("bitxor", vec![int(&a), int(&b)]);
-        $rec.form("inherent", || val(a.bitxor(b)));
-        $rec.fam("not", vec![int(&a)]);
-        $rec.form("inherent", || val(a.not()));
-    }};
-}
-macro_rules! fam_shifts_common {
-    ($rec:expr, $x:expr, $amt:expr, $U:ident, $I:ident) => {{
-        let x = $x;
-        let amt: i128 = $amt;
-        $rec.sem = "C04";
-        $rec.fam("shl_ops", vec![int(&x), snat(amt)]);
-        shift_all_forms!($rec, x, amt, <<, <<=; u8, u16, u32, u64, u128, usize, i8, i16, i32, i64, i128, isize);
-        shift_bnum_forms!($rec, x, amt, <<, <<=; "bu2": $U<2>, "bi1": $I<1>, "bu3": $U<3>, "bi5": $I<5>);
-        if let Ok(v) = u32::try_from(amt) {
-            $rec.form("inherent", || val(x.shl(v)));
-        }
-        $rec.fam("shr_ops", vec![int(&x), snat(amt)]);
-        shift_all_forms!($rec, x, amt, >>, >>=; u8, u16, u32, u64, u128, usize, i8, i16, i32, i64, i128, isize);
-        shift_bnum_forms!($rec, x, amt, >>, >>=; "bu2": $U<2>, "bi1": $I<1>, "bu3": $U<3>, "bi5": $I<5>);
-        if let Ok(v) = u32::try_from(amt) {
-            $rec.form("inherent", || val(x.shr(v)));
-        }
-    }};
-}
-fam_unsigned!(BUint, BInt, u64);
-fam_unsigned!(BUintD32, BIntD32, u32);
-fam_unsigned!(BUintD16, BIntD16, u16);
-fam_unsigned!(BUintD8, BIntD8, u8);
-
-// ----------------------------------------------------------------------------------------------
-// inputs
-
-fn root_inputs(r: &mut Rng, n: usize, thorough: bool) -> Vec<(B, u32)> {
-    let w = (8 * n) as u32;
-    let mut v: Vec<(B, u32)> = Vec::new();
-    let degs_all: Vec<u32> = vec![1, 2, 3, 4, 5, 6, 7, 8, 9, 10, 11, 13, 16, 17, 31, 32, 33, 40, 63, 64, 65, 100, 127, 128, 129, 255, 256, 1000, w - 1, w, w + 1, u32::MAX, 1u32 << 31];
-    let degs: Vec<u32> = if thorough { degs_all.clone() } else {
-        // always: the degrees at which n or n - 1 stops fitting a u8 / u16 digit
-        let mut d = vec![1u32, 2, 3, 4, 5, 7, 40, w, u32::MAX, 255, 256, 257, 65535, 65536, 65537];
-        for _ in 0..5 {
-            d.push(*r.pick(&degs_all));
-        }
-        d.sort();
-        d.dedup();
-        d
-    };
-    for n_deg in degs {
-        // x in {r^n - 1, r^n, r^n + 1} for a few r
-        let rs: Vec<B> = vec![gen::small(n, 2), gen::small(n, 3), gen::small(n, 10), gen::small(n, 2 + r.below(250)), gen::fit(&gen::short(r, (n / (n_deg.min(64) as usize).max(1)).max(1).min(n)), n)];
-        for rb in rs {
-            if n_deg <= 4096 {
-                let (p, ov) = gen::upow(&rb, n_deg, n);
-                if !ov && p[n - 1] & 0x80 == 0 {
-                    v.push((p.clone(), n_deg));
-                    v.push((gen::sub1(&p), n_deg));
-                    v.push((gen::add1(&p), n_deg));
-                    if r.below(2) == 0 {
-                        v.push((gen::negate(&p), n_deg));
-                    }
-                }
-            }
-        }
-        v.push((gen::ones(n), n_deg));
-        v.push((gen::smax(n), n_deg));
-        v.push((gen::smin(n), n_deg));
-        v.push((gen::zero(n), n_deg));
-        v.push((gen::small(n, 1), n_deg));
-        v.push((gen::random(r, n), n_deg));
-        v.push((gen::short(r, n), n_deg));
-    }
-    v
-}
-
-struct Ctx {
-    cli: Cli,
-    sink: Sink,
-}
-thread_local! {
-    static CTX: std::cell::RefCell<Option<Ctx>> = std::cell::RefCell::new(None);
-}
-
-fn run_type<T: Fam>(c: &Ctx) -> Rec
-where
-    for<'a> &'a T: Add<T, Output = T> + Add<&'a T, Output = T> + Sub<T, Output = T> + Sub<&'a T, Output = T> + Mul<T, Output = T> + Mul<&'a T, Output = T>
-        + Div<T, Output = T> + Div<&'a T, Output = T> + Rem<T, Output = T> + Rem<&'a T, Output = T>
-        + BitAnd<T, Output = T> + BitAnd<&'a T, Output = T> + BitOr<T, Output = T> + BitOr<&'a T, Output = T> + BitXor<T, Output = T> + BitXor<&'a T, Output = T>
-        + Not<Output = T>,
-{
-    let mut rec = Rec::new();
-    let thorough = c.cli.tier == "thorough";
-    let n = (T::W / 8) as usize;
-    let w = T::W;
-    let prop = c.cli.prop.as_str();
-    let mut r = Rng::new(c.cli.seed ^ ((w as u64) << 29) ^ (prop.as_bytes()[2] as u64 * 733) ^ 0x17);
-    let bnd = gen::boundary(n);
-    let scale = |q: usize, t: usize| -> usize {
-        let b = if thorough { t } else { q };
-        if n >= 64 {
-            (b / 3).max(6)
-        } else {
-            b
-        }
-    };
-    match prop {
-        "C17" => {
-            let mut ps = gen::pairs(&mut r, n, scale(45, 400));
-            // small operands: products and quotients that do not overflow
-            for _ in 0..scale(15, 150) {
-                ps.push((gen::fit(&gen::short(&mut r, (n / 2).max(1)), n), gen::small(n, r.below(300))));
-            }
-            for (a, b) in ps.iter() {
-                c17_generic::<T>(&mut rec, a, b);
-                T::c17_inherent(&mut rec, a, b);
-            }
-            let amts: Vec<i128> = vec![0, 1, 7, 8, (w - 1) as i128, w as i128, (w + 1) as i128, -1, 255, 256, -128, 65535, i32::MAX as i128, u32::MAX as i128, (1i128 << 32), (1i128 << 32) + 3, -(1i128 << 32) + 3, u64::MAX as i128, i64::MIN as i128, i128::MAX, i128::MIN, (1i128 << 64) + 1];
-            for a in amts.iter() {
-                let x = gen::any(&mut r, n, &bnd);
-                T::c17_shifts(&mut rec, &x, *a);
-            }
-            for _ in 0..scale(10, 120) {
-                let x = gen::any(&mut r, n, &bnd);
-                let a = r.below(w as u64) as i128;
-                T::c17_shifts(&mut rec, &x, a);
-            }
-            // folds of length 0..5
-            for len in 0..=5usize {
-                for _ in 0..scale(4, 30) {
-                    let items: Vec<B> = (0..len)
-                        .map(|_| match r.below(4) {
-                            0 => gen::any(&mut r, n, &bnd),
-                            1 => gen::small(n, r.below(20)),
-                            2 => gen::negate(&gen::small(n, r.below(20))),
-                            _ => gen::fit(&gen::short(&mut r, (n / 4).max(1)), n),
-                        })
-                        .collect();
-                    c17_fold::<T>(&mut rec, &items);
-                }
-            }
-            // long folds (more elements than a digit has values): per-position accumulators and deferred carries
-            // only go wrong past 2^8 / 2^16 additions into one digit position; items are short, so that the exact
-            // sum is representable, and have all-ones low bytes, so that every low column overflows
-            if n >= 3 {
-                for len in [258usize, 300, if thorough { 1000 } else { 270 }] {
-                    let k = (n / 2).max(1);
-                    let items: Vec<B> = (0..len)
-                        .map(|i| {
-                            let mut x = gen::zero(n);
-                            for t in 0..k.min(n - 2) {
-                                x[t] = if (i + t) % 7 == 0 { (r.next() & 0xff) as u8 } else { 0xff };
-                            }
-                            x
-                        })
-                        .collect();
-                    c17_fold::<T>(&mut rec, &items);
-                }
-                // a long product that stays representable: ones, a few twos and minus ones
-                let items: Vec<B> = (0..300usize).map(|i| if i % 97 == 5 { gen::small(n, 2) } else if i % 89 == 7 && T::S { gen::negate(&gen::small(n, 1)) } else { gen::small(n, 1) }).collect();
-                c17_fold::<T>(&mut rec, &items);
-            }
-            for _ in 0..scale(60, 400) {
-                let x = match r.below(3) {
-                    0 => gen::extreme(&mut r, n),
-                    _ => gen::any(&mut r, n, &bnd),
-                };
-                let d = r.next();
-                T::c17_digit(&mut rec, &x, d);
-            }
-        }
-        "C18" => {
-            let mut ps = gen::pairs(&mut r, n, scale(40, 400));
-            for _ in 0..scale(20, 200) {
-                // common factors, exact multiples
-                let g = gen::fit(&gen::short(&mut r, (n / 3).max(1)), n);
-                let a = gen::fit(&gen::umul(&gen::trim(g.clone()), &gen::trim(gen::small(n, 1 + r.below(1000)))), n);
-                let b = gen::fit(&gen::umul(&gen::trim(g.clone()), &gen::trim(gen::small(n, 1 + r.below(1000)))), n);
-                ps.push((if r.below(3) == 0 { gen::negate(&a) } else { a }, if r.below(3) == 0 { gen::negate(&b) } else { b }));
-            }
-            // near-full-size operands with a large common factor: bit lengths adding up to about BITS + 1
-            for _ in 0..scale(16, 150) {
-                let gk = 1 + r.below((n as u64 / 2).max(1)) as usize;
-                let g = gen::trim(gen::short(&mut r, gk));
-                if g.is_empty() {
-                    continue;
-                }
-                let rest = 8 * n + 1 + r.below(3) as usize; // total bits of a and b together: BITS+1 .. BITS+3
-                let gb = 8 * g.len();
-                if rest <= 2 * gb + 2 {
-                    continue;
-                }
-                let pb = (rest - 2 * gb) / 2;
-                let qb = rest - 2 * gb - pb;
-                let mk = |r: &mut Rng, bits: usize| -> B {
-                    let mut v = gen::random(r, bits / 8 + 1);
-                    let top = bits % 8;
-                    let l = v.len();
-                    v[l - 1] = if top == 0 { 0 } else { (v[l - 1] & ((1u16 << top) - 1) as u8) | (1u8 << (top - 1)) };
-                    gen::trim(v)
-                };
-                let pa = gen::umul(&g, &mk(&mut r, pb.max(1)));
-                let pq = gen::umul(&g, &mk(&mut r, qb.max(1)));
-                if gen::trim(pa.clone()).len() <= n && gen::trim(pq.clone()).len() <= n {
-                    ps.push((gen::fit(&gen::trim(pa), n), gen::fit(&gen::trim(pq), n)));
-                }
-            }
-            for (a, b) in ps.iter() {
-                let cc = gen::any(&mut r, n, &bnd);
-                T::c18_pair(&mut rec, a, b, &cc);
-            }
-            for a in gen::values(&mut r, n, scale(20, 200)) {
-                T::c18_unary(&mut rec, &a);
-            }
-            for (x, deg) in root_inputs(&mut r, n, thorough) {
-                T::c18_root(&mut rec, &x, deg);
-            }
-            for _ in 0..scale(25, 200) {
-                let x = gen::any(&mut r, n, &bnd);
-                let s = match r.below(4) {
-                    0 => r.below(2 * w as u64) as u32,
-                    _ => r.below(w as u64) as u32,
-                };
-                T::c18_shift(&mut rec, &x, s);
-            }
-            T::c18_consts(&mut rec);
-        }
-        _ => panic!("unknown property"),
-    }
-    rec
-}
-
-macro_rules! run_bnum {
-    ($w:literal; $(($U:ty, $I:ty)),+) => {
-        CTX.with(|c| {
-            let mut c = c.borrow_mut();
-            let c = c.as_mut().unwrap();
-            if c.cli.only_width.map_or(true, |x| x == $w) {
-                let mut us: Vec<(&'static str, Rec)> = Vec::new();
-                let mut is: Vec<(&'static str, Rec)> = Vec::new();
-                $(
-                    if c.cli.prop == "C17" {
-                        // digit operands differ per digit type: not merged
-                        let ru = run_type::<$U>(c);
-                        let ri = run_type::<$I>(c);
-                        c.sink.merge($w, false, "bnum", vec![(<$U as Bn>::DT, ru)]);
-                        c.sink.merge($w, true, "bnum", vec![(<$I as Bn>::DT, ri)]);
-                    } else {
-                        us.push((<$U as Bn>::DT, run_type::<$U>(c)));
-                        is.push((<$I as Bn>::DT, run_type::<$I>(c)));
-                    }
-                )+
-                c.sink.merge($w, false, "bnum", us);
-                c.sink.merge($w, true, "bnum", is);
-            }
-        });
+macro_rules! the_giants {
+    ($m:ident) => {
+        bnum_verif_harness::for_giants!($m);
     };
 }
-
-fn main() {
-    install_hook();
-    let cli = parse_cli();
-    let prop = cli.prop.clone();
-    let sink = Sink::new(&cli.out, &prop);
-    CTX.with(|c| *c.borrow_mut() = Some(Ctx { cli, sink }));
-    for_matrix!(run_bnum);
-    let ctx = CTX.with(|c| c.borrow_mut().take().unwrap());
-    let (n, splits) = ctx.sink.finish();
-    eprintln!("recorded {} events, {} digit-type splits, mode {}", n, splits, MODE);
-}
+include!("../drv/traits.rs");
